@@ -74,7 +74,7 @@ ob("C04.validated_five", "c01::validated_five", {"C04": "P"},
 for g in ["flush", "distinct_nonflush", "quads", "full_house", "trips", "two_pair"] + ["pair_%d%d" % (i, j) for i in range(5) for j in range(i + 1, 5)]:
     ob("C01.direct_%s" % g, "c01::direct_%s" % g, {"C01": "P"},
        "forall five distinct cards of category group '%s' in ANY slot order and suit assignment, real code end to end, no stubs: hand_rank_value() == ordinal(sorted ranks, same suit)" % g,
-       EVAL5, tier="thorough", unwind=15, timeout=3600, weight=8, concretise=["C01.direct_any"])
+       EVAL5, tier="thorough", unwind=15, timeout=3600, weight=4, concretise=["C01.direct_any"])
 ob("C01.direct_any", "c01::direct_any", {"C01": "N", "C06": "N", "C13": "N"},
    "native only (concretiser body): any five distinct cards, any order, all four entry points == ordinal", EVAL5, engine="native")
 
